@@ -499,6 +499,26 @@ def _fam_sphere(rng, n, spec):
     return f, g, dict(convex=False, complex_safe=True, cf=lambda x: np.sum(x**2))
 
 
+def _fam_qp_subnormal(rng, n, spec):
+    """A strictly convex quadratic in the first n-1 variables plus a term c*x_n whose slope c is a subnormal number (3e-310): the
+    last component of every gradient is non-zero and below the smallest normal double."""
+    m = max(n - 1, 1)
+    f0, g0, meta = _fam_qp(rng, m, spec)
+    c = float(rng.choice([-1.0, 1.0])) * float(rng.uniform(1.0, 4.0)) * 1e-310
+
+    def f(x):
+        return f0(x[:m]) + (c * float(x[m]) if x.size > m else 0.0)
+
+    def g(x):
+        out = np.zeros(x.size)
+        out[:m] = g0(x[:m])
+        if x.size > m:
+            out[m] = c
+        return out
+
+    return f, g, dict(convex=False, complex_safe=False, min_n=2)
+
+
 def _fam_flat(rng, n, spec):
     """An objective that does not depend on some (or any) of its variables: constant, or a quadratic in the first variable only."""
     c0 = float(rng.normal())
@@ -553,6 +573,7 @@ _FAMILIES = {
     "quartic": _fam_quartic,
     "sphere": _fam_sphere,
     "flat": _fam_flat,
+    "qp_subnormal": _fam_qp_subnormal,
     "quantized": _fam_quantized,
 }
 
@@ -561,7 +582,7 @@ def make_problem(spec) -> Problem:
     """spec: family, n, seed, [cond], box, start, [pattern]."""
     fam = spec["family"]
     n = int(spec["n"])
-    if fam in ("rosenbrock", "beale", "scaled_rosenbrock"):
+    if fam in ("rosenbrock", "beale", "scaled_rosenbrock", "qp_subnormal"):
         n = max(n, 2)
     seed = int(spec["seed"])
     rng = np.random.default_rng(subseed("problem", fam, n, seed))
